@@ -3250,6 +3250,18 @@ where
                         "post-construction: D≥4 finalize repair completed (soft-fail)"
                     );
                     // Always soft-fail: is_delaunay_property_only() validates correctness.
+
+                    // The repair flips do not maintain the positive-orientation convention, and
+                    // only the PL-manifold guarantees re-validate it below.  Re-establish it for
+                    // every guarantee; a complex in which that is impossible is not a
+                    // triangulation and must not be returned.
+                    self.tri
+                        .normalize_and_promote_positive_orientation()
+                        .map_err(|e| TriangulationConstructionError::GeometricDegeneracy {
+                            message: format!(
+                                "Geometric orientation could not be canonicalized after construction: {e}"
+                            ),
+                        })?;
                 }
             } else if !soft_fail_seeds.is_empty() {
                 // D<4 seeded repair (unused in practice; kept for completeness).
